@@ -435,6 +435,7 @@ def compare_case(impl, model):
     kind = 'spec' when the property-level views differ (a concrete violation),
     'model' when only the model-level views differ (correspondence broken)."""
     n = max(len(impl), len(model))
+    first_model = None
     for i in range(n):
         a = impl[i] if i < len(impl) else "<no output>"
         b = model[i] if i < len(model) else "<no output>"
@@ -444,7 +445,9 @@ def compare_case(impl, model):
         bl, br = split_views(b)
         if view_equal(al, bl) and (ar is None and br is None or view_equal(ar, br)):
             continue
-        if a.startswith("crash:") or a == "hang" or a == "<no output>":
+        if b == "bad-op" and a != "bad-op":
+            kind = "model"     # the model driver does not know the operation: correspondence, not a verdict
+        elif a.startswith("crash:") or a == "hang" or a == "<no output>":
             kind = "spec"      # a crash/hang is never allowed by a property
             if bl in ("oob", "diverge") or bl.startswith("oob") or bl.startswith("diverge"):
                 kind = "spec"
@@ -454,8 +457,14 @@ def compare_case(impl, model):
             kind = "spec"      # single-view lines: the view is the property-level observable
         else:
             kind = "model"
-        return {"op_index": i, "impl": a, "model": b, "kind": kind}
-    return None
+        d = {"op_index": i, "impl": a, "model": b, "kind": kind}
+        if kind == "spec":
+            return d           # a property-level difference further on outranks an earlier model-level one
+        if first_model is None:
+            first_model = d
+        if a.startswith("crash:") or a == "hang" or a == "<no output>" or b in ("<no output>",):
+            break              # nothing comparable follows
+    return first_model
 
 
 # --------------------------------------------------------------------------
